@@ -134,7 +134,22 @@ pub struct SimState {
     pub record_oplog: bool,
 }
 
+/// Rendezvous: threads that arrive at a filesystem call of class `class` wait (up to `timeout`)
+/// until `need` threads have arrived and then proceed together, so that whatever each of them
+/// does right after the call races with the others.
+#[derive(Default)]
+pub struct Rendezvous {
+    pub class: &'static str,
+    pub need: usize,
+    pub arrived: usize,
+    pub generation: u64,
+    pub timeout_ms: u64,
+    pub met: u64,
+}
+
 pub struct SimInner {
+    pub rv: Mutex<Rendezvous>,
+    pub rv_cv: parking_lot::Condvar,
     pub state: Mutex<SimState>,
     locker: InMemoryFileSystem,
     pub sink: Mutex<Option<Arc<TraceSink>>>,
@@ -185,6 +200,8 @@ impl SimFs {
         let next_inode = disk.inodes.keys().max().map_or(1, |m| m + 1);
         SimFs {
             inner: Arc::new(SimInner {
+                rv: Mutex::new(Rendezvous::default()),
+                rv_cv: parking_lot::Condvar::new(),
                 state: Mutex::new(SimState {
                     disk,
                     journal: vec![],
@@ -218,6 +235,20 @@ impl SimFs {
         let mut d = self.inner.state.lock().disk.clone();
         d.gc();
         d
+    }
+
+    /// Arm (need >= 2) or disarm (need = 0) the rendezvous; returns how many meetings happened.
+    pub fn set_rendezvous(&self, class: &'static str, need: usize, timeout_ms: u64) -> u64 {
+        let mut rv = self.inner.rv.lock();
+        let met = rv.met;
+        rv.class = class;
+        rv.need = need;
+        rv.arrived = 0;
+        rv.generation += 1;
+        rv.timeout_ms = timeout_ms;
+        rv.met = 0;
+        self.inner.rv_cv.notify_all();
+        met
     }
 
     pub fn set_fault(&self, mode: FaultMode) {
@@ -265,6 +296,32 @@ impl SimFs {
 }
 
 impl SimInner {
+    /// Must be called WITHOUT the state lock.
+    fn rendezvous(&self, class: &'static str) {
+        let mut rv = self.rv.lock();
+        if rv.need < 2 || rv.class != class {
+            return;
+        }
+        rv.arrived += 1;
+        if rv.arrived >= rv.need {
+            rv.arrived = 0;
+            rv.generation += 1;
+            rv.met += 1;
+            self.rv_cv.notify_all();
+            return;
+        }
+        let gen = rv.generation;
+        let deadline = std::time::Instant::now() + std::time::Duration::from_millis(rv.timeout_ms);
+        while rv.generation == gen {
+            if self.rv_cv.wait_until(&mut rv, deadline).timed_out() {
+                if rv.generation == gen {
+                    rv.arrived = rv.arrived.saturating_sub(1);
+                }
+                return;
+            }
+        }
+    }
+
     /// Decide whether the next faultable operation fails. Must be called with the state lock.
     fn check_fault(&self, st: &mut SimState, class: &'static str, path: &Path) -> io::Result<()> {
         let idx = st.op_counter;
@@ -419,6 +476,7 @@ impl ReadonlyRandomAccessFile for SimHandle {
 
     fn len(&self) -> io::Result<u64> {
         let fs = Arc::clone(&self.fs);
+        fs.rendezvous("size");
         let mut st = fs.state.lock();
         // the size query on an open handle can fail like the one by path
         fs.check_fault(&mut st, "size", &self.path)?;
